@@ -994,6 +994,25 @@ class Corr(Cov):
     corr = True
 
 
+def _row_operands(expr):
+    # The operands whose rows make up the rows of a length preserving operation
+    broadcast = getattr(
+        expr, "_broadcast_dep", lambda dep: dep.npartitions == 1 and dep.ndim < expr.ndim
+    )
+    return [dep for dep in expr.dependencies() if not broadcast(dep)]
+
+
+def _rows_root(expr):
+    # Follow length preserving operations down to the expression that determines
+    # the rows
+    while expr._is_length_preserving:
+        frames = _row_operands(expr)
+        if len(frames) != 1:
+            break
+        expr = frames[0]
+    return expr
+
+
 class Len(Reduction):
     reduction_chunk = staticmethod(len)
     reduction_aggregate = sum
@@ -1007,8 +1026,12 @@ class Len(Reduction):
 
         # Pass through Elemwises, unless we just introduced an Index
         if self.frame._is_length_preserving and not isinstance(self.frame, Index):
-            child = max(self.frame.dependencies(), key=lambda expr: expr.npartitions)
-            return Len(child)
+            # Operands that are broadcast don't contribute rows; the others must
+            # provably have the same rows, a binary operation aligns the indexes
+            # of e.g. a filtered operand with an unfiltered one
+            frames = _row_operands(self.frame)
+            if frames and len({_rows_root(expr)._name for expr in frames}) == 1:
+                return Len(frames[0])
 
         # Let the child handle it.  They often know best
         if isinstance(self.frame, IO):
